@@ -292,6 +292,21 @@ def r_forget_only_gathered(ctx: Ctx, rule: str):
                 if new != old:
                     state[id(s)] = new
                     work.append(s)
+        # premise of the dataflow above: while the method is suspended tasks only *leave* the running registry - none is created.
+        # That holds when nothing new is accepted (the pool is locked before the first suspension) and nothing accepted earlier
+        # still spawns (every spawner was waited for before the wait for the tasks starts)
+        gs_ = gathers(ctx, f)
+        sp_ = [x for x in gs_ if gather_fields(ctx, f, x) & SPAWNER_FIELDS]
+        tk_ = [x for x in gs_ if gather_fields(ctx, f, x) & TASK_FIELDS]
+        locks_ = ctx.nodes(f, lambda n: ctx.is_call_to(n, "lock") or any(e.path.endswith("._locked") and e.kind == "assign" for e in ctx.eff.of_node(n)))
+        for s_ in ctx.distinct_sites([n for n in ctx.nodes(f, lambda n: ctx.effective(n))]):
+            rep.ob(rule, "premise (no task is created while the close is suspended): the pool is locked before gather_and_close first suspends",
+                   bool(locks_) and dominated_by_completion(g, locks_, s_), node=s_)
+        for t_ in tk_:
+            for need in sorted(SPAWNER_FIELDS):
+                doms = [x for x in sp_ if need in gather_fields(ctx, f, x)]
+                rep.ob(rule, f"premise (no task is created while the close is suspended): the wait for the tasks starts after the spawners in {need} were waited for",
+                       bool(doms) and dominated_by_completion(g, _copies(g, doms), t_), node=t_)
         forgets = [n for n in g.nodes if n.pred and any(e.kind in ("clear", "assign") and e.path.count(".") == 1 and field_of(e.path) in TASK_FIELDS for e in ctx.eff.of_node(n))]
         rep.floor(rule, "bulk forgets of task registries in gather_and_close",
                   len({(id(n.ast), field_of(e.path)) for n in forgets for e in ctx.eff.of_node(n) if e.kind in ("clear", "assign") and field_of(e.path) in TASK_FIELDS}), 3)
@@ -364,3 +379,160 @@ def r_return_exceptions(ctx: Ctx, rule: str, funcs=("flush", "gather_and_close")
                         break
             rep.ob(rule, f"besides its gathers {name} has no step that may raise out of the method (so {name}(return_exceptions=True) never raises)", not bad, func=f,
                    construct=bad[0] if bad else f"{name}: no other raising step")
+
+
+_LAZY_VIEWS = {"values", "items", "keys"}
+_LAZY_CALLS = {"chain", "from_iterable", "map", "filter", "iter", "reversed", "enumerate", "zip", "islice"}
+_MUTATORS = {"append", "extend", "add", "update", "insert", "setdefault", "union_update"}
+
+
+def _is_lazy_call(ctx: Ctx, fr: FuncInfo, call: ast.Call) -> bool:
+    """chain(...), chain.from_iterable(...), map(...), filter(...): iterators of the standard library that look into their arguments
+    only when they are advanced"""
+    fn = call.func
+    if isinstance(fn, ast.Name):
+        return fn.id in _LAZY_CALLS and fn.id not in ctx.an.scope(fr).defs
+    if isinstance(fn, ast.Attribute) and fn.attr in _LAZY_CALLS:
+        root = fn.value
+        while isinstance(root, ast.Attribute):
+            root = root.value
+        return isinstance(root, ast.Name) and root.id in ("chain", "itertools", "builtins")
+    return False
+
+
+def _registry_fields(ctx: Ctx, fr: FuncInfo, env, e: ast.AST) -> Set[str]:
+    from .shared import expr_sources
+
+    return {field_of(x) for x in expr_sources(ctx, fr, env, e)} & (TASK_FIELDS | SPAWNER_FIELDS)
+
+
+def _holder(g, e: ast.AST) -> List[Node]:
+    """the live CFG steps whose statement/expression contains expression e (the step at which e is evaluated)"""
+    out = []
+    for n in g.nodes:
+        if not n.pred or n.ast is None:
+            continue
+        if n.ast is e:
+            out.append(n)
+    if out:
+        return out
+    best: Dict[int, Node] = {}
+    for n in g.nodes:
+        if not n.pred or n.ast is None or n.op in ("entry", "exit"):
+            continue
+        if any(x is e for x in ast.walk(n.ast)):
+            best[id(n)] = n
+    # the innermost holders: those whose ast does not contain another holder's ast
+    hs = list(best.values())
+    inner = [n for n in hs if not any(m is not n and m.ast is not n.ast and any(x is m.ast for x in ast.walk(n.ast)) for m in hs)]
+    return inner or hs
+
+
+def _eager_points(ctx: Ctx, g, at: Node, fr: FuncInfo, env, e: ast.AST, depth: int = 0, busy: Optional[set] = None) -> List[tuple]:
+    """Where are the members that expression e yields *read out of a registry into a value of their own*?
+    -> [(expression, frame)] of eager materialisations (copies, comprehensions, displays, results of calls); lazy forms - an
+    attribute path, a dict view, a generator expression (beyond its first iterable), chain/map/filter - read the registry only
+    when they are consumed, i.e. at the gather itself."""
+    busy = busy if busy is not None else set()
+    out: List[tuple] = []
+    if depth > 10:
+        return out
+    for fr2, env2, leaf in ctx.vals.leaves(fr, env, e):
+        leaf = strip_cast(leaf)
+        if id(leaf) in busy:
+            continue
+        busy.add(id(leaf))
+        if isinstance(leaf, ast.Starred):
+            out += _eager_points(ctx, g, at, fr2, env2, leaf.value, depth + 1, busy)
+        elif isinstance(leaf, ast.Attribute):
+            continue
+        elif isinstance(leaf, ast.Name):
+            # not a plainly bound local (parameter, accumulator, loop target): the steps that put registry members into it
+            sc = ctx.an.scope(fr2)
+            if leaf.id in sc.params and not sc.defs.get(leaf.id):
+                continue
+            for n in g.nodes:
+                if not n.pred or n.func is not fr2 or n.ast is None:
+                    continue
+                st = n.ast
+                if n.op == "call" and isinstance(st, ast.Call) and isinstance(st.func, ast.Attribute) and isinstance(st.func.value, ast.Name) \
+                        and st.func.value.id == leaf.id and st.func.attr in _MUTATORS:
+                    if any(_registry_fields(ctx, fr2, env2, a) for a in list(st.args) + [k.value for k in st.keywords]):
+                        out.append((st, fr2))
+                elif isinstance(st, ast.AugAssign) and isinstance(st.target, ast.Name) and st.target.id == leaf.id and _registry_fields(ctx, fr2, env2, st.value):
+                    out.append((st, fr2))
+                elif isinstance(st, (ast.For, ast.AsyncFor)) and n.op in ("iter", "for", "next") and any(isinstance(x, ast.Name) and x.id == leaf.id for x in ast.walk(st.target)) \
+                        and _registry_fields(ctx, fr2, env2, st.iter):
+                    pass  # a loop variable holds one member at a time; what is collected from it is judged at the collecting step
+        elif isinstance(leaf, ast.GeneratorExp):
+            # the outermost iterable is evaluated - and iter() taken on it - where the generator expression is created
+            first = leaf.generators[0].iter
+            sub = _eager_points(ctx, g, at, fr2, env2, first, depth + 1, busy)
+            out += sub
+            if not sub and _registry_fields(ctx, fr2, env2, first):
+                out.append((leaf, fr2, "iter"))
+        elif isinstance(leaf, ast.Call) and isinstance(leaf.func, ast.Attribute) and leaf.func.attr in _LAZY_VIEWS and not leaf.args:
+            out += _eager_points(ctx, g, at, fr2, env2, leaf.func.value, depth + 1, busy)
+        elif isinstance(leaf, ast.Call) and _is_lazy_call(ctx, fr2, leaf):
+            for a in leaf.args:
+                out += _eager_points(ctx, g, at, fr2, env2, a, depth + 1, busy)
+        else:
+            if _registry_fields(ctx, fr2, env2, leaf):
+                out.append((leaf, fr2))
+            # what an eager expression is built from may itself have been materialised earlier
+            for x in ast.walk(leaf):
+                if isinstance(x, ast.Name) and isinstance(x.ctx, ast.Load) and x is not leaf and x.id in ctx.an.scope(fr2).defs:
+                    out += _eager_points(ctx, g, at, fr2, env2, x, depth + 1, busy)
+    return out
+
+
+def r_fresh_members(ctx: Ctx, rule: str, clauses=("copy", "iter")):
+    """SNAPSHOT-FRESH.  gather_and_close must wait for what the registries hold *when the wait starts*: while it is suspended in an
+    earlier wait, spawners go on filing tasks and an overlapping flush() drains and re-binds the per-group spawner sets.  A copy of a
+    registry (or of its member collections) taken before a suspension and gathered after it misses all of that."""
+    rep = ctx.rep
+    rep.rule(rule, "SNAPSHOT-FRESH(gather_and_close): the members handed to each gather are read out of the registries in the same "
+                   "non-suspending stretch as the gather starts - no eager copy (dict()/list()/set(), display, comprehension, helper "
+                   "result) of a task or spawner registry is taken before a suspension and waited on after it, nor is an iterator over a "
+                   "registry (the outermost iterable of a generator expression) created before a suspension and advanced after it; lazy "
+                   "forms (attribute path, dict view, chain.from_iterable) read at the gather itself")
+    n_g = 0
+    for f in ctx.pool_funcs("gather_and_close"):
+        g = ctx.an.cfg(f)
+        for x in _own_gathers(ctx, f):
+            call = strip_cast(x.ast.value)
+            n_g += 1
+            pts: List[tuple] = []
+            for a in call.args:
+                pts += _eager_points(ctx, g, x, x.func, x.env, a)
+            gx = _copies(g, [x])
+            bad = None
+            seen = set()
+            for e, fr, *kind in pts:
+                if (kind[0] if kind else "copy") not in clauses:
+                    continue
+                if id(e) in seen:
+                    continue
+                seen.add(id(e))
+                hs = _holder(g, e)
+                if not hs:
+                    rep.ob(rule, "the step that evaluates a registry copy is located in the flow graph", None, func=f, construct=ast.unparse(e)[:60])
+                    continue
+                # evaluated as part of the gather step itself: nothing can come between
+                hs = [h for h in hs if not any(h.ast is c.ast or any(y is h.ast for y in ast.walk(c.ast)) for c in gx)]
+                if not hs:
+                    continue
+                mid = between(hs, gx)
+                susp = [m for m in mid if ctx.effective(m)] + [h for h in hs if ctx.effective(h) and h.op == "await" and not any(y is e for y in ast.walk(h.ast.value if isinstance(h.ast, ast.Await) else h.ast))]
+                if susp:
+                    bad = (e, susp[0], kind[0] if kind else "copy")
+                    break
+            rep.ob(rule, "the members this gather waits for are read from the registries when the wait starts (no copy taken before an earlier suspension)",
+                   bad is None, node=x,
+                   detail="" if bad is None else (
+                       f"`{ast.unparse(bad[0])[:70]}` copies registry members before `{bad[1].text(50)}` suspends; what is filed, drained or "
+                       "re-bound during that suspension is not waited for" if bad[2] == "copy" else
+                       f"the iterator over the registry that `{ast.unparse(bad[0])[:70]}` takes when it is created is advanced only after "
+                       f"`{bad[1].text(50)}` suspended; an overlapping flush()/cancel_group() that adds or drops a key meanwhile makes the "
+                       "gather raise RuntimeError (dictionary changed size during iteration) although no task or callback raised"))
+    rep.floor(rule, "gathers in gather_and_close judged", n_g, 2)
